@@ -41,9 +41,11 @@ int rename(const char* from, const char* to) {      // libc contract: replaces `
 int mkdir(const char*, unsigned) { return 0; }
 }
 namespace {
+int name_style = 0;      // 0: "log.<n>", 1: "logs/app.<nn>.log" (path separator, fixed width number with fill character, suffix)
 std::string content_of(int gen) {
    char nm[32] = "log.0"; nm[4] = (char) ('0' + gen);
-   VFile* f = vfind(nm, false); return f ? f->data : std::string();
+   char nm1[32] = "logs/app.00.log"; nm1[10] = (char) ('0' + gen);
+   VFile* f = vfind(name_style ? nm1 : nm, false); return f ? f->data : std::string();
 }
 size_t entries_in(const std::string& s) { size_t n = 0; for (char c : s) n += c == '\n'; return n; }
 }
@@ -51,8 +53,9 @@ namespace { struct TextOnly : detail::IFormatStream { void format(std::ostream& 
 // policy: bit 1 set: the messages go through files::Handler< Policy> (formatter writing the message text) instead of directly into the policy
 // policy: 0 Counted(limit = max entries), 1 MaxSize(limit = max bytes); gens generations; hist: 2 bits per event (1 = write, 2 = restart), 0 terminates
 HX void hx_files(uint64_t policy, uint64_t limit, uint64_t gens, uint64_t hist) {
-   filename::Definition def; { filename::Creator c(def); c << "log." << filename::number; }
-   const bool via_handler = policy & 2; policy &= 1;
+   name_style = (policy & 4) ? 1 : 0;
+   filename::Definition def; { filename::Creator c(def); if (name_style) c << "logs" << filename::path_sep << "app." << 2 << filename::number << ".log"; else c << "log." << filename::number; }
+   const bool via_handler = policy & 2; policy &= 3; policy &= 1;
    std::unique_ptr<files::PolicyBase> p; std::unique_ptr<files::Handler<files::Counted>> hc; std::unique_ptr<files::Handler<files::MaxSize>> hm;
    auto make = [&] {
       if (via_handler) {
